@@ -440,6 +440,10 @@ def _scn_params(tier, rng):
         out.append(dict(parts=[[1, 2]], header=True, footer=True, wpc=1, trees=[[0, 1]], min_part=5))
         out.append(dict(parts=[[2], [1]], header=False, footer=False, wpc=2, trees=[0, 0], min_part=5))
         out += _empty_partition_shapes()[::2]
+        # sub-streams with different partition counts (the later one shorter): id ranges must not meet
+        out.append(dict(parts=[[1, 1], [1]], header=True, footer=True, wpc=1, trees=[[0, 1], 0]))
+        out.append(dict(parts=[[2, 1], [1]], header=False, footer=False, wpc=2, trees=[[0, 1], 0]))
+        out.append(dict(parts=[[1, 1, 1], [1, 1]], header=False, footer=True, wpc=1, trees=[[[0, 1], 2], [0, 1]]))
         return out
     out = shapes(3, 2, (1, 2, 3)) + _empty_partition_shapes()
     out += [dict(s, spill="0") for s in shapes(2, 2, (1,), two_substreams=False)]
